@@ -152,7 +152,9 @@ namespace options
 
                     while (std::getline(str, element, ';'))
                     {
-                        update_value(element);
+                        // each piece is a value, whatever it looks like
+                        dirty_ = true;
+                        value_.push_back(element);
                     }
 
                     return;
